@@ -89,4 +89,23 @@ def many_categories_desc(rng):
     return desc, {"many_categories": True, "stochastic": True}
 
 
-TEMPLATES = {"many_categories": many_categories_desc, "int_utility": int_utility_desc, "stateless": stateless_desc, "stateless_noperiod": stateless_noperiod_desc}
+def many_restricted_desc(rng):
+    """Two filter-restricted discrete states with 14-20 labels each (hundreds of feasible
+    restricted-state combinations: index types narrower than the count would wrap)."""
+    ne = int(rng.integers(14, 21))
+    T = int(rng.integers(2, 4))
+    k = round(float(rng.uniform(0.05, 0.4)), 4)
+    fns = [["utility", ["exper", "tenure", "work", "move", "k"], "0.11 * xp.sqrt(1.0 + exper) + 0.07 * tenure * work - k * work - 0.13 * move + 0.02 * exper * move"],
+           ["next_exper", ["exper", "work"], f"xp.minimum(exper + work, {ne - 1})"],
+           ["next_tenure", ["tenure", "work", "move"], f"xp.where(move == 1, 0, xp.minimum(tenure + work, {ne - 1}))"],
+           ["tenure_filter", ["tenure", "exper", "move"], "tenure <= exper"]]
+    params = {"beta": round(float(rng.uniform(0.7, 0.98)), 4), "utility": {"k": k}, "next_exper": {}, "next_tenure": {}, "tenure_filter": {}}
+    states = [["exper", {"kind": "disc", "n": ne}], ["tenure", {"kind": "disc", "n": ne}]]
+    if rng.random() < 0.5:
+        states.reverse()
+    desc = {"n_periods": T, "states": states, "choices": [["work", {"kind": "disc", "n": 2}], ["move", {"kind": "disc", "n": 2}]],
+            "functions": [fns[i] for i in rng.permutation(len(fns))], "stochastic": [], "tables": {}, "params": params}
+    return desc, {"many_restricted": True, "filters": True}
+
+
+TEMPLATES = {"many_restricted": many_restricted_desc, "many_categories": many_categories_desc, "int_utility": int_utility_desc, "stateless": stateless_desc, "stateless_noperiod": stateless_noperiod_desc}
